@@ -12,10 +12,11 @@ allf = {}
 for b in F.bodies:
     if b["krate"] in lib:
         allf[b["def"]] = b
+KEY = "library_functions_under_shape_rules" if "--shape" in sys.argv else "library_functions_inspected"
 seen = {}
 for f in sorted(glob.glob("/verif/evidence/C??.json")):
     e = json.load(open(f))
-    for d in e["coverage"].get("library_functions_inspected", []):
+    for d in e["coverage"].get(KEY, []):
         seen.setdefault(d, []).append(e["property_id"])
 un = sorted(set(allf) - set(seen))
 print("library bodies: %d, inspected by at least one rule: %d, never inspected: %d" % (len(allf), len(set(allf) & set(seen)), len(un)))
